@@ -128,7 +128,7 @@ def step (v : Variant) (mode : Mode) (cfg : NameCfg) (m : Mapper) (j : Json) : E
   | "map" =>
     return (m, Json.mkObj [("ret", pnameStr (mapQNameCfg cfg m (← parseQN (← j.getObjVal? "q"))))])
   | "mapattr" =>
-    return (m, Json.mkObj [("ret", pnameStr (mapAttr (parseRule j) m (← parseQN (← j.getObjVal? "q"))))])
+    return (m, Json.mkObj [("ret", pnameStr (mapAttrCfg cfg (parseRule j) m (← parseQN (← j.getObjVal? "q"))))])
   | "unmap" =>
     let n ← parsePName (← j.getObjVal? "n")
     let r := unmapQNameCfg cfg m.ns (← parsePairs j "xmlns") (← getBool j "tab") n
